@@ -300,7 +300,9 @@ impl World {
     }
 
     fn new_value(&mut self, r: &mut Rng, big: bool) -> (usize, String) {
-        let nchars = if big {
+        let nchars = if big && self.max_value_size >= 65_531 {
+            66_000 // more bytes than MAX_PLAINTEXT_SIZE whatever the characters
+        } else if big {
             self.max_value_size / 2 + r.below(self.max_value_size as u64) as usize
         } else {
             match r.below(8) {
@@ -433,6 +435,8 @@ impl World {
                 "non-root requester succeeded with `{op}` (needs level {need}) although the best live grant reachable within the horizon gives level {live} (ignoring expiry: {any})"
             ),
             json!({"failing_call": line, "time_us": now, "policy": format!("{:?}", self.pol),
+                   "bookkeeping_grants_on_secret (ent, level, expiry_window_us, alive, delegation)": self.grants.iter().filter(|g| g.sec == sec).map(|g| format!("{:?}", (g.ent, g.level, g.expiry, g.alive, g.deleg))).collect::<Vec<_>>(),
+                   "bookkeeping_member_distance_from_requester": format!("{:?}", self.dists(Nd::Ent(req))),
                    "history_slice (model protocol; identity 0 = root; times in microseconds)": self.relevant_history(req, sec)}),
         );
     }
@@ -807,7 +811,11 @@ fn exec(w: &mut World, m: &mut Model, rep: &mut Report, r: &mut Rng, stream: &st
             let imp = finish!("undelegate", line, imp, t0);
             if imp.starts_with("ok") {
                 w.delegs.retain(|(p, c, _)| !(p == parent && c == child));
-                for g in w.grants.iter_mut().filter(|g| g.deleg == Some((*parent, *child))) {
+                // only the grants of the record that was actually removed (a later delegate(parent, child, other
+                // secrets) REPLACES the record; the earlier delegation's edges then stay and are still unrevoked)
+                let revoked: Vec<u64> = imp.trim_start_matches("ok ").split(',').filter_map(|x| x.parse().ok()).collect();
+                let sec_ids = w.sec_ids.clone();
+                for g in w.grants.iter_mut().filter(|g| g.deleg == Some((*parent, *child)) && revoked.contains(&sec_ids[g.sec])) {
                     g.alive = false;
                     g.expiry = None;
                 }
@@ -1044,6 +1052,13 @@ fn directed(m: &mut Model, rep: &mut Report, root: &Rng, seen: &mut BTreeSet<Str
                 Op::GrantTtl { req: 0, ent: 1, sec: 0, level: 3, ttl_ms: 15 },
                 Op::Sleep { ms: 30 },
                 Op::Grant { req: 1, ent: 2, sec: 0, level: 3, plain_api: true },
+                Op::GrantTtl { req: 1, ent: 3, sec: 0, level: 1, ttl_ms: 500 },
+                Op::Revoke { req: 1, ent: 3, sec: 0 },
+                Op::Delete { req: 1, sec: 0 },
+                Op::Set { req: 0, sec: 0, big: false },
+                Op::GrantTtl { req: 0, ent: 1, sec: 0, level: 3, ttl_ms: 15 },
+                Op::Sleep { ms: 30 },
+                Op::Grant { req: 1, ent: 2, sec: 0, level: 3, plain_api: true },
                 Op::Get { req: 1, sec: 0 },
                 Op::Get { req: 2, sec: 0 },
                 Op::Delete { req: 2, sec: 0 },
@@ -1111,10 +1126,23 @@ fn directed(m: &mut Model, rep: &mut Report, root: &Rng, seen: &mut BTreeSet<Str
                 Op::Get { req: 0, sec: 0 },
             ],
         ),
+        (
+            "size-limit-default",
+            vec![
+                Op::Set { req: 0, sec: 0, big: false },
+                Op::Grant { req: 0, ent: 1, sec: 0, level: 2, plain_api: false },
+                Op::Rotate { req: 1, sec: 0, big: true },
+                Op::Set { req: 1, sec: 0, big: true },
+                Op::Get { req: 1, sec: 0 },
+                Op::Delete { req: 0, sec: 2 },
+                Op::Delete { req: 1, sec: 2 },
+            ],
+        ),
     ];
     for (name, ops) in scenarios {
         let mut r = root.fork(name);
-        let mut w = World::new(&mut r, m, Pol { admin_limit: 1, write_limit: 2, horizon: 10 }, 3, 96, 3, 3, 3);
+        let mvs = if name == "size-limit-default" { 65_531 } else { 96 };
+        let mut w = World::new(&mut r, m, Pol { admin_limit: 1, write_limit: 2, horizon: 10 }, 3, mvs, 3, 3, 3);
         let mut ok = true;
         for op in &ops {
             if !exec(&mut w, m, rep, &mut r, "directed", op) {
